@@ -516,7 +516,7 @@ def itemsession_batch(ctx, wu, rounds, rng):
     from wpull.pipeline.item import Status
     from wpull.pipeline.session import ItemSession
     for rnd in range(rounds):
-        pool = list(JUNK_LINKS) + [uc.gen_malformed(rng) for _ in range(12)]
+        pool = list(JUNK_LINKS) + ['x:\ud800', '\udc80', 'http://h/\udfff?q', 'mailto:\ud800@x'] + [uc.gen_malformed(rng) for _ in range(12)]
         bad, maybe_good = [], []
         for link in pool:
             try:
@@ -533,6 +533,7 @@ def itemsession_batch(ctx, wu, rounds, rng):
                     # accepted by the parser (no network scheme: nothing is encoded) but not storable in the SQLite
                     # table: a matter of the table / crawl robustness (C14, C09), reported to the coordinator, not offered here
                     ctx.tag('itemsession:parseable-but-unstorable-surrogate')
+        rng.shuffle(bad)
         bad = bad[:rng.randrange(2, 9)]
         table = URLTableHookWrapper(SQLiteURLTable(path=':memory:'))
         pages = ['http://example.com/r%d/page%d' % (rnd, i) for i in range(rng.randrange(2, 5))]
@@ -556,9 +557,21 @@ def itemsession_batch(ctx, wu, rounds, rng):
                 try:
                     # (add_url is reached through add_child_url, as in the crawler; rows without URL properties mixed
                     # into one batch are a matter of the table, property C14)
-                    item.add_child_url(link, inline=rng.random() < 0.3)
+                    kw = {}
+                    if rng.random() < 0.3:
+                        kw['inline'] = True
+                    if rng.random() < 0.3:
+                        kw['replace'] = True        # the plugin interface: re-queue a link
+                    if rng.random() < 0.2:
+                        kw['level'] = rng.choice([0, 1, 7])
+                    if rng.random() < 0.2:
+                        kw['post_data'] = rng.choice(['a=b', ''])
+                    if rng.random() < 0.1:
+                        kw['link_type'] = None
+                    item.add_child_url(link, **kw)
                 except BaseException as e:
-                    ctx.fail('raises', 'ItemSession.add_url', case, 'page %d: adding %r raised %s: %s' % (number, link, type(e).__name__, str(e)[:150]))
+                    ctx.fail('raises', 'ItemSession.add_url', case, 'page %d: add_child_url(%r, %s) raised %s: %s'
+                             % (number, link, ', '.join('%s=%r' % kv for kv in sorted(kw.items())), type(e).__name__, str(e)[:150]))
                     failed = True
             queued = [info.url for info in item._add_url_batch]
             for link in bad:
@@ -618,6 +631,10 @@ def rewrite_batch(ctx, wu, urls):
                 info = wu.URLInfo.parse(u)
             except ValueError:
                 info = None
+            except Exception as e:
+                ctx.fail('non-valueerror', 'URLInfo.parse', dict(case, stream='parse', default_scheme='http', encoding='utf-8'),
+                         'parse raised %s: %s' % (type(e).__name__, str(e)[:200]))
+                continue
             ctx.case(('rewrite', u, combo), tags=['rewrite:' + ('unparseable' if info is None else 'ok'), 'rewrite:combo=%s' % (combo,)])
             ref = None
             if info is not None:
@@ -743,6 +760,11 @@ def exhaustive(ctx, wu):
 
 def replay(ctx, case, kind=None, where=None):
     wu = uc.setup(ctx)
+    with uc.replay_level(case):
+        _replay(ctx, wu, case)
+
+
+def _replay(ctx, wu, case):
     s = case.get('stream', 'parse')
     if s in ('parse', 'orlog'):
         uc.replay_history(wu, case)
@@ -768,40 +790,83 @@ def replay(ctx, case, kind=None, where=None):
         raise Infra('unknown replay stream %r' % s)
 
 
+SCHEMELESS = ['example.com:8080/x', 'localhost:8080', 'localhost:', 'LOCALHOST:80/a', 'a.b:c', 'a.b:', 'x.y:z:1', 'h.x:99999', 'h.x:-1',
+              'localhost:x', 'example.com', 'example.com/p?q', '//example.com/', 'a.b:80:90', '\u00e9.x:1', 'a.b:\ud800', 'localhost:\x00',
+              'a..b:1', 'user@h.x:80', '[::1]:80', 'h.x:8_0', ' h.x:80 ', 'h.x:', ':', 'x:', 'mailto:a@b', 'javascript:void(0)']
+
+
 def run(ctx):
+    import logging
     wu = uc.setup(ctx)
-    rs = uc.run_stream
+    orig_fail = ctx.fail
+
+    def fail(kind, where, case, detail=''):
+        # every failing input records the logging level it was observed under (replay re-creates it)
+        if isinstance(case, dict) and uc.LEVEL['now'] != 'WARNING' and 'log_level' not in case:
+            case = dict(case, log_level=uc.LEVEL['now'])
+        return orig_fail(kind, where, case, detail)
+    ctx.fail = fail
+
+    def rs(ctx_, name, fn, level=logging.WARNING):
+        def body():
+            with uc.log_level(level):
+                return fn()
+        return uc.run_stream(ctx_, name + '@' + logging.getLevelName(level), body)
+
+    def by_level(name, items, fn):
+        """the logging level as a dimension: the inputs of a stream are split over WARNING / INFO / DEBUG"""
+        for k, level in enumerate(uc.LEVELS):
+            part = items[k::3]
+            if part:
+                rs(ctx, name, lambda part=part: fn(part), level=level)
+
     rs(ctx, 'consts', lambda: uc.stream_consts(ctx, wu))
     for j in uc.load_corpus(ctx, 'C11'):
         rs(ctx, 'corpus', lambda j=j: replay(ctx, j.get('case', j)))
-    # long-lived process: several thousand distinct hosts / paths / queries before anything else is parsed
-    rs(ctx, 'longrun', lambda: uc.warm_process(ctx, wu, ctx.scale(3500, 30000)))
+    # long-lived process: several thousand distinct hosts / paths / queries before anything else is parsed;
+    # the level is raised to DEBUG in the middle (what WARCRecorder._setup_log / --debug do to the root logger)
+    n_warm = ctx.scale(3500, 30000)
+    rs(ctx, 'longrun', lambda: uc.warm_process(ctx, wu, n_warm // 2))
+    rs(ctx, 'longrun', lambda: uc.warm_process(ctx, wu, n_warm - n_warm // 2, start=n_warm // 2), level=logging.DEBUG)
     rng = ctx.rng
+    # the same inputs at every level, caches cleared between (run_real clears them per case)
+    lrng = ctx.subrng('loglevel')
+    same = [uc.Case(u, ds, 'utf-8', 'loglevel') for u in SCHEMELESS for ds in ('http', None, 'ftp')]
+    same += [uc.Case(s_, kind='loglevel') for s_ in uc.seed_urls(ctx.repo)]
+    same += [uc.Case(uc.gen_malformed(lrng), *uc.pick_config(lrng), 'loglevel') for _ in range(ctx.scale(1200, 20000))]
+    for level in uc.LEVELS:
+        rs(ctx, 'loglevel-parse', lambda: batch(ctx, wu, [uc.Case(c.url, c.ds, c.encoding, c.kind) for c in same]), level=level)
+        rs(ctx, 'loglevel-orlog', lambda: batch(ctx, wu, [uc.Case(c.url, 'http', c.encoding, c.kind) for c in same[::2]], op='orlog'), level=level)
     rs(ctx, 'pct256', lambda: uc.stream_pct256(ctx, wu))
     rs(ctx, 'int', lambda: uc.stream_int(ctx, ctx.scale(3000, 60000), ctx.subrng('int')))
     sweep = uc.byte_sweep_cases()
-    rs(ctx, 'byte-sweep', lambda: batch(ctx, wu, sweep))
-    rs(ctx, 'byte-sweep-orlog', lambda: batch(ctx, wu, [uc.Case(c.url, 'http', c.encoding, c.kind) for c in sweep[::2]], op='orlog'))
+    by_level('byte-sweep', sweep, lambda part: batch(ctx, wu, part))
+    by_level('byte-sweep-orlog', [uc.Case(c.url, 'http', c.encoding, c.kind) for c in sweep[::2]], lambda part: batch(ctx, wu, part, op='orlog'))
     n_mal, n_seed, n_spec = ctx.scale(6000, 150000), ctx.scale(3000, 80000), ctx.scale(2000, 50000)
     chunks = max(1, n_mal // 6000)
     for k in range(chunks):
         cases = gen_cases(ctx, rng, n_mal // chunks, n_seed // chunks, n_spec // chunks)
-        rs(ctx, 'parse', lambda: batch(ctx, wu, cases))
+        by_level('parse', cases, lambda part: batch(ctx, wu, part))
         ol = [uc.Case(c.url, 'http', c.encoding, c.kind) for c in cases[::3]]
-        rs(ctx, 'orlog', lambda: batch(ctx, wu, ol, op='orlog'))
-    rs(ctx, 'join', lambda: join_batch(ctx, wu, gen_pairs(ctx, ctx.subrng('join'), ctx.scale(3000, 60000))))
-    rs(ctx, 'scrape', lambda: scrape_batch(ctx, wu, gen_link_lists(ctx, ctx.subrng('scrape'), ctx.scale(400, 6000))))
-    rs(ctx, 'itemsession', lambda: itemsession_batch(ctx, wu, ctx.scale(60, 600), ctx.subrng('itemsession')))
-    rs(ctx, 'rewrite', lambda: rewrite_batch(ctx, wu, gen_rewrite_urls(ctx, ctx.subrng('rewrite'), ctx.scale(500, 8000))))
-    rs(ctx, 'sitemaps', lambda: sitemaps_batch(ctx, wu, gen_starts(ctx, ctx.subrng('sitemaps'), ctx.scale(600, 10000))))
+        by_level('orlog', ol, lambda part: batch(ctx, wu, part, op='orlog'))
+    by_level('join', gen_pairs(ctx, ctx.subrng('join'), ctx.scale(3000, 60000)), lambda part: join_batch(ctx, wu, part))
+    by_level('scrape', gen_link_lists(ctx, ctx.subrng('scrape'), ctx.scale(400, 6000)), lambda part: scrape_batch(ctx, wu, part))
+    irng = ctx.subrng('itemsession')
+    for level in uc.LEVELS:
+        rs(ctx, 'itemsession', lambda: itemsession_batch(ctx, wu, ctx.scale(25, 250), irng), level=level)
+    by_level('rewrite', gen_rewrite_urls(ctx, ctx.subrng('rewrite'), ctx.scale(500, 8000)), lambda part: rewrite_batch(ctx, wu, part))
+    by_level('sitemaps', gen_starts(ctx, ctx.subrng('sitemaps'), ctx.scale(600, 10000)), lambda part: sitemaps_batch(ctx, wu, part))
     hrng = ctx.subrng('html')
-    rs(ctx, 'htmljoin', lambda: html_batch(ctx, wu, [gen_doc(hrng) for _ in range(ctx.scale(600, 10000))]))
+    by_level('htmljoin', [gen_doc(hrng) for _ in range(ctx.scale(600, 10000))], lambda part: html_batch(ctx, wu, part))
     if ctx.tier == 'thorough' and ctx.boost == 1:
-        rs(ctx, 'exhaustive', lambda: exhaustive(ctx, wu))
+        rs(ctx, 'exhaustive', lambda: exhaustive(ctx, wu), level=logging.DEBUG)
         ctx.exhaustive = True
     # the verdict for a URL must not depend on what was parsed before: earlier and new inputs again, caches kept
-    rs(ctx, 'longrun-recheck', lambda: uc.recheck_process(ctx, wu, ctx.subrng('recheck'), 300, 300))
+    rs(ctx, 'longrun-recheck', lambda: uc.recheck_process(ctx, wu, ctx.subrng('recheck'), 300, 300), level=logging.DEBUG)
     ctx.note('long_lived_process', '%d URLs parsed in this one process' % uc.HISTORY['parsed'])
+    ctx.note('log_levels', 'every stream runs with the root logger at WARNING, INFO and DEBUG (a formatting handler attached); '
+             'the level is raised to DEBUG in the middle of the long-lived process; %d log records failed to format' % uc.NullHandler.errors)
+    ctx.fail = orig_fail
 
 
 def search(ctx):
